@@ -638,15 +638,28 @@ fn gen_case(batch: &str, _index: u64, seed: u64) -> Case {
     let n = if pr.chance(0.5) { pr.usize_in(4, 30) } else { pr.usize_in(4, 120) };
     let p = pr.usize_in(1, 6);
     let lattice = r.chance(0.35);
-    let x: Vec<Vec<f64>> = (0..n)
+    let mut x: Vec<Vec<f64>> = (0..n)
         .map(|_| (0..p).map(|_| if lattice { r.below(5) as f64 } else { r.range(-3.0, 3.0) }).collect())
         .collect();
+    // sometimes one feature takes values that are neighbours in f64 (1, 1+ulp, 1+2ulp, ...): thresholds
+    // between them cannot be represented (the midpoint rounds onto one of the two values)
+    if r.chance(0.12) {
+        let col = r.below(p as u64) as usize;
+        let base = *r.pick(&[1.0f64, -2.5, 1024.0, 1e-3]);
+        let levels = r.usize_in(2, 4) as u64;
+        for row in x.iter_mut() {
+            let steps = r.below(levels);
+            row[col] = f64::from_bits((base.to_bits() as i64 + if base > 0.0 { steps as i64 } else { -(steps as i64) }) as u64);
+        }
+    }
     let y: Vec<f64>;
     if task == "clf" {
         let kcls = pr.usize_in(2, 4).min(n);
         // label values are arbitrary reals: also sets whose members share an integer part (0.25 / 0.75,
         // -0.5 / 0.5) and large or tiny magnitudes
-        let label_sets: [&[f64]; 8] = [
+        let label_sets: [&[f64]; 9] = [
+            // two labels one ulp apart (0.3 and 0.1 + 0.2): still two classes
+            &[0.3, 0.30000000000000004, 1.0, 2.0],
             &[0.0, 1.0, 2.0, 3.0],
             &[-1.0, 1.0, 5.0, 7.0],
             &[2.5, -3.0, 10.0, 11.0],
@@ -656,7 +669,7 @@ fn gen_case(batch: &str, _index: u64, seed: u64) -> Case {
             &[-0.5, 0.5, 0.1, 2.0],
             &[1e6, 1000000.5, -1e-3, 1e-3],
         ];
-        let ls = label_sets[pr.below(8) as usize];
+        let ls = label_sets[pr.below(9) as usize];
         let skew = pr.chance(0.4);
         let mut yy: Vec<f64> = (0..n)
             .map(|i| {
